@@ -199,9 +199,10 @@ func (b *gatedBucket) Put(ctx context.Context, path string, opts ...storage.PutO
 
 type gatedWriter struct {
 	storage.WriteObjectCloser
-	p      *proc
-	marker bool
-	wrote  bool
+	p         *proc
+	marker    bool
+	wrote     bool
+	closeFail bool
 }
 
 func (w *gatedWriter) Write(data []byte) (int, error) {
@@ -214,9 +215,12 @@ func (w *gatedWriter) Write(data []byte) (int, error) {
 		if w.marker {
 			name = "ywrite"
 		}
-		if w.p.gate(name) == "fail" {
+		switch w.p.gate(name) {
+		case "fail":
 			n, _ := w.WriteObjectCloser.Write(data[:len(data)/2])
 			return n, fmt.Errorf("write: %w", errInjected)
+		case "closefail":
+			w.closeFail = true // every byte goes out, the Close reports a failure
 		}
 	}
 	return w.WriteObjectCloser.Write(data)
@@ -225,6 +229,10 @@ func (w *gatedWriter) Write(data []byte) (int, error) {
 func (w *gatedWriter) Close() error {
 	if w.p.dead {
 		return errDead // a dead process closes nothing: temp files and truncated objects stay
+	}
+	if w.closeFail {
+		_ = w.WriteObjectCloser.Close()
+		return fmt.Errorf("close: %w", errInjected)
 	}
 	return w.WriteObjectCloser.Close()
 }
@@ -639,8 +647,8 @@ func replayTour(ctx context.Context, cfg config, dir string, tour []edge) (*tour
 			verdict := "ok"
 			if o.Op == "crash" {
 				verdict = "crash"
-			} else if o.Outcome == "fail" {
-				verdict = "fail"
+			} else if o.Outcome == "fail" || o.Outcome == "closefail" {
+				verdict = o.Outcome
 			}
 			p.proceed <- verdict
 			if o.Op == "crash" {
